@@ -203,6 +203,50 @@ class Bounds:
             pass
         return lo, hi
 
+    def snapshot_valid(self, a, bb):
+        """a = ('len', place, (fn, block)): no block on a path from the snapshot site to bb (loops included) may mutate the place."""
+        place, site = a[1], a[2]
+        if not (isinstance(site, tuple) and len(site) == 2 and site[0] == self.fn.path):
+            return False
+        key = (a, bb)
+        if key in self._closure.setdefault("_snap", {}):
+            return self._closure["_snap"][key]
+        fn = self.fn
+        s0 = site[1]
+        # paths from the (latest execution of the) snapshot site to bb: they do not pass through the site again
+        fwd = set()
+        dq = list(fn.succ(s0))
+        while dq:
+            n = dq.pop()
+            if n in fwd or n == s0:
+                continue
+            fwd.add(n)
+            dq.extend(fn.succ(n))
+        back = {bb}
+        dq = list(fn.pred(bb)) if bb != s0 else []
+        while dq:
+            n = dq.pop()
+            if n in back or n == s0:
+                continue
+            back.add(n)
+            dq.extend(fn.pred(n))
+        ok = bb in fwd or bb == s0
+        if ok:
+            between = (fwd & back) - {bb}
+            # values the place is computed from must not be re-computed on the way (loop variables, call results)
+            for x in values.subterms(place):
+                if isinstance(x, tuple) and x and x[0] == "call" and len(x) > 3 and isinstance(x[3], tuple) and x[3][0] == fn.path and x[3][1] in between:
+                    ok = False
+            for n in between:
+                if not ok:
+                    break
+                for m in flow.mutated_bases(fn, self.ev, n):
+                    if m == place or values.contains(place, lambda x, m=m: x == m):
+                        ok = False
+                        break
+        self._closure["_snap"][key] = ok
+        return ok
+
     # ------------------------------------------------------------------ constraint graph
     def _atoms_of(self, terms):
         out = []
@@ -273,6 +317,23 @@ class Bounds:
                     if al >= 0:
                         extra_edges.append(("Le", a, a[2]))
                         work.extend(x for x in self._atoms_of([a[2]]) if x not in work)
+            # loop variable of `for i in a..b`: a <= i < b
+            if a[0] == "vfield" and a[2] == "Some" and isinstance(a[1], tuple) and a[1] and a[1][0] == "call" \
+                    and values.strip_generics(a[1][1]).split("::")[-1] == "next" and "Range" in a[1][1] and a[1][2]:
+                src = self.W.expand(a[1][2][0])
+                while isinstance(src, tuple) and src and src[0] == "reader":
+                    src = src[1]
+                if isinstance(src, tuple) and src and src[0] == "agg" and str(src[1]).endswith("Range::Range") and len(src[2]) == 2:
+                    lo_t, hi_t = src[2]
+                    extra_edges.append(("Le", lo_t, a))
+                    extra_edges.append(("Lt", a, hi_t))
+                    work.extend(x for x in self._atoms_of([lo_t, hi_t]) if x not in work)
+            # a length snapshot taken at a call site equals the current length while nothing on the way may have changed the container
+            if a[0] == "len" and len(a) == 3 and self.snapshot_valid(a, bb):
+                cur = ("len", a[1])
+                extra_edges.append(("Eq", a, cur))
+                if cur not in work:
+                    work.append(cur)
         atoms = work
         nodes = [None] + atoms
         idx = {id(None): 0}
